@@ -1,3 +1,4 @@
+import math
 from datetime import datetime
 from typing import List, Dict, Any, Iterable, Optional
 
@@ -146,7 +147,8 @@ class CriticalPathCalculator:
         for k, v in self.__links.items():
             # print(k, f"{v.start.start_units} - {v.start.end_units}", f"{v.end.start_units} - {v.end.end_units}")
             r = v.end.end_units - v.start.start_units - v.units
-            if r == 0:
+            # Units are floats: sums of fractional estimates are not exact
+            if math.isclose(r, 0, abs_tol=1e-9 * max(1.0, abs(v.end.end_units))):
                 res.append(self.__tasks[k])
 
         if self.__end_date is None:
